@@ -298,6 +298,50 @@ func (s slowStore) AddPeer(addr string) error {
 	return s.PeerStore.AddPeer(addr)
 }
 
+// failStore makes the n-th AddPeer (failAdd) or the n-th UpdatePeerInfo (failUpdate) fail once
+// (n counted from 1; 0 = never): a peer store that is unavailable for one connection.
+type failStore struct {
+	syncer.PeerStore
+	mu                   sync.Mutex
+	adds, updates        int
+	failAdd, failUpdate  int
+	failedAdd, failedUpd int
+}
+
+func (f *failStore) AddPeer(addr string) error {
+	f.mu.Lock()
+	f.adds++
+	fail := f.adds == f.failAdd
+	if fail {
+		f.failedAdd++
+	}
+	f.mu.Unlock()
+	if fail {
+		return fmt.Errorf("peer store unavailable")
+	}
+	return f.PeerStore.AddPeer(addr)
+}
+
+func (f *failStore) UpdatePeerInfo(addr string, fn func(*syncer.PeerInfo)) error {
+	f.mu.Lock()
+	f.updates++
+	fail := f.updates == f.failUpdate
+	if fail {
+		f.failedUpd++
+	}
+	f.mu.Unlock()
+	if fail {
+		return fmt.Errorf("peer store unavailable")
+	}
+	return f.PeerStore.UpdatePeerInfo(addr, fn)
+}
+
+func (f *failStore) failed() int {
+	f.mu.Lock()
+	defer f.mu.Unlock()
+	return f.failedAdd + f.failedUpd
+}
+
 // closeWithin calls s.Close() and reports whether it returned within d.
 func closeWithin(f func(), d time.Duration) (returned bool, took time.Duration) {
 	done := make(chan struct{})
